@@ -32,6 +32,7 @@ type Cluster struct {
 	codec raft.Transport
 
 	ET, HB, Lease time.Duration
+	timed         bool // timed replay: virtual time advances only with the specification's Tick
 
 	controlled bool            // election timers parked at the gate
 	gatedOnly  map[string]bool // if non-empty: only these nodes' timers are gated
